@@ -192,6 +192,17 @@ Proof.
     intros w Hw. rewrite elem_of_cons. split; [intros [->|?]; [by destruct (Hw a)|done]|by right].
   - by rewrite getev_setev_ne.
 Qed.
+Lemma evs_rereg_task s e a :
+  evs_task_eq s (setev s e (getev s e <| wakers := WTask a :: List.filter (fun w => negb (is_task a w)) (getev s e).(wakers) |>)).
+Proof.
+  destruct (decide (e < length s.(evs))) as [Hlt|Hge]; [|rewrite setev_ge by lia; by apply evs_task_eq_refl].
+  intros e'. destruct (decide (e' = e)) as [->|Hne].
+  - rewrite getev_setev_eq by done. cbn. split; [done|].
+    intros w Hw. rewrite elem_of_cons, !elem_of_list_In, filter_In. split.
+    + intros [->|[? _]]; [by destruct (Hw a)|done].
+    + intros H. right. split; [done|]. destruct w; try done. by destruct (Hw c).
+  - by rewrite getev_setev_ne.
+Qed.
 Lemma evs_unreg_task s e a : evs_task_eq s (setev s e (getev s e <| wakers := List.filter (fun w => negb (is_task a w)) (getev s e).(wakers) |>)).
 Proof.
   destruct (decide (e < length s.(evs))) as [Hlt|Hge]; [|rewrite setev_ge by lia; by apply evs_task_eq_refl].
